@@ -85,6 +85,12 @@ func runC15(c *core.Ctx) error {
 	}
 	checkUntrustedSizes(c, r6, rt)
 	checkFreshVisitedSets(c, r6, rt, pkgGen)
+	if progM, err := c.Program("./gen", "./openapi/parser"); err != nil {
+		r6.Undecided("load:memo", "-", trimPosMsg(err.Error(), 300))
+	} else {
+		// the shape checks that keep the runtime's panics unreachable are not answered from a table keyed by less than they read
+		checkSkipMemoKeyCoversInputs(c, r6, progM, skipMemoReviewed, pkgParser, pkgGen)
+	}
 	checkErrorHandlerAfterEncoder(c, r6, ex)
 	// net/http panics on WriteHeader with a code outside 100..999 ("invalid WriteHeader code"): a constant
 	// status written by a generated response encoder must be a real status code
